@@ -76,6 +76,9 @@ def _eq(a, b):
     return False
 
 
+DEFAULT_CFG = {"unknownProps": True, "unknownAttrs": False, "convWarnings": False}
+
+
 def zoo_roundtrip(ctx, n):
     xctx = XmlContext()
     k = 0
@@ -99,6 +102,12 @@ def zoo_roundtrip(ctx, n):
                 ctx.case(("zoo", k, writer, h))
                 if out[0] != "ok" or not _eq(out[1], obj):
                     ctx.violation(f"zoo: {type(obj).__name__} does not round-trip ({writer}/{h}): {repr(out[1])[:300]}",
+                                  {"obj": repr(obj)[:1500], "text": text[:1500], "ns_map": repr(nm), "finding_tags": zoo_tags(obj)})
+                # the parser's DEFAULT configuration (conversion warnings do not fail): the same object comes back
+                out, _w, _t = rb.record_parse(text, type(obj), xctx, h, DEFAULT_CFG)
+                ctx.case(("zoo-default-config", k, writer, h))
+                if out[0] != "ok" or not _eq(out[1], obj):
+                    ctx.violation(f"zoo: {type(obj).__name__} does not round-trip under the default parser configuration ({writer}/{h}): {repr(out[1])[:300]}",
                                   {"obj": repr(obj)[:1500], "text": text[:1500], "ns_map": repr(nm), "finding_tags": zoo_tags(obj)})
 
 
